@@ -10,7 +10,8 @@ MANIFEST = {
              "Vertex.add_to_universe/remove_from_universe, Vertex(universes=...) and Universe(vertices=...): (IND) one "
              "symbolic call from an arbitrary pool state satisfying the membership invariant (universes may be members "
              "of universes and of themselves; all list lengths, elements and argument aliasings are SMT variables); (BMC) "
-             "all histories of depth 2/3 from the constructed pool. After every call: the invariant, plus the exact "
+             "all histories of depth 2/3 from the constructed pool (also with two distinct vertices carrying one uid, and "
+             "with two vertices constructed from one caller-owned universes= list). After every call: the invariant, plus the exact "
              "expected lists of a reference step (append on a new membership, order-preserving deletion, nothing else "
              "changes); removing a non-member must raise and change nothing.",
     "note": "Bounds: 2 plain vertices + 2 universes (+1 object created), lists <= 2 (quick) / 3 (thorough) before the "
